@@ -102,7 +102,14 @@ class ExprMixin:
             return sv.t != ty.empty()
         if isinstance(ty, T.Map):
             return ty.dom(sv.t) != T.Set(ty.key).empty()
-        if isinstance(ty, (T.U, T.Rec, T.Tup, T.Enum)):
+        if isinstance(ty, T.U):
+            # an opaque Python object: its truth value is unknown (0, '', empty containers are falsy)
+            # unless the contract module declares the sort always-truthy (callables, plain objects)
+            if ty.name in self.always_truthy:
+                return z3.BoolVal(True)
+            self.used_models.add(f"truthiness of opaque {ty.name}: uninterpreted")
+            return z3.Function("truthy_" + ty.name, ty.sort(), z3.BoolSort())(sv.t)
+        if isinstance(ty, (T.Rec, T.Tup, T.Enum)):
             if isinstance(ty, T.Tup) and not ty.items:
                 return z3.BoolVal(False)
             return z3.BoolVal(True)
